@@ -410,11 +410,17 @@ fn apply_wrap(v: Value, wrap: &Option<(&'static str, i64, u8)>) -> Value {
     }
 }
 
+/// `run_engine_batch`'s rendering of `ExecutionError::CannotCreateArrayOfNullType` (src/execution/mod.rs), the answer D15 predicts
+const D15_ERROR: &str = "exec: Cannot create array of null type";
+
 struct RefOut {
     /// the statement takes STDDEV / VARIANCE of intervals: the sentence does not say what that is (the code reports an
     /// overflow or no value), so nothing is demanded
     undecided: bool,
     rows: Vec<Vec<Value>>,
+    /// the table finding D10 predicts: `rows` without exactly the groups in which no aggregate of the statement creates an
+    /// entry (HAVING applied to the groups that are left; same columns, same order)
+    rows_d10: Vec<Vec<Value>>,
     /// a group exists in which no aggregate of the statement creates an entry (finding D10)
     d10: bool,
     /// an ARRAY_AGG whose first value in some group is NULL (finding D15)
@@ -445,21 +451,24 @@ fn reference(q: &TypedQuery, admitted: &[Vec<Value>]) -> RefOut {
         if !keys.iter().any(|x| cmp_key(x, &k) == Ordering::Equal) { keys.push(k); }
     }
     keys.sort_by(|a, b| cmp_key(a, b));
-    let mut out = RefOut { undecided: false, rows: Vec::new(), d10: false, d15: false };
+    let mut out = RefOut { undecided: false, rows: Vec::new(), rows_d10: Vec::new(), d10: false, d15: false };
     let mut all_aggs: Vec<&AggK> = q.items.iter().filter_map(|it| match it { Item::Agg(a, _) => Some(a), _ => None }).collect();
     if let Some(h) = &q.having { h.aggs(&mut all_aggs); }
     out.undecided = all_aggs.iter().any(|a| matches!(a, AggK::Stddev(c, _) if *c == IV));
     for k in &keys {
         let g: Vec<&Vec<Value>> = passing.iter().filter(|r| cmp_key(&key_of(r), k) == Ordering::Equal).cloned().collect();
-        if !all_aggs.iter().any(|a| creates_entry(a, &g)) { out.d10 = true; }
+        let visible = all_aggs.iter().any(|a| creates_entry(a, &g));
+        if !visible { out.d10 = true; }
         for a in &all_aggs { if let AggK::ArrayAgg(c) = a { if g[0][*c] == Value::Null { out.d15 = true; } } }
         if let Some(h) = &q.having {
             if !h.holds(&g) { continue; }
         }
-        out.rows.push(q.items.iter().map(|it| match it {
+        let row: Vec<Value> = q.items.iter().map(|it| match it {
             Item::Key(i) => k[*i].clone(),
             Item::Agg(a, wrap) => apply_wrap(ref_aggregate(a, &g), wrap),
-        }).collect());
+        }).collect();
+        if visible { out.rows_d10.push(row.clone()); }
+        out.rows.push(row);
     }
     out
 }
@@ -552,13 +561,18 @@ pub fn run(p: &Params) -> Run {
             _ if expected.undecided => ("undecided", 0),
             RowsOutcome::Rows { rows, .. } => {
                 if *rows != expected.rows {
-                    let class = if expected.d15 { "D15:array_agg-first-value-null" } else if expected.d10 { "D10:group-without-value-entry" } else { "aggregate-table-differs-from-reference" };
-                    run.fail(desc.clone(), class, format!("implementation table {:?} but the rows of each group give {:?}", rows, expected.rows));
+                    // known finding D10 only if the table is EXACTLY the predicted one: the reference table without the
+                    // groups in which no aggregate creates an entry (and no ARRAY_AGG starts with NULL: D15 predicts an
+                    // error, so a table is then not what any finding predicts)
+                    let class = if expected.d10 && !expected.d15 && *rows == expected.rows_d10 { "D10:group-without-value-entry" } else { "aggregate-table-differs-from-reference" };
+                    let note = if expected.d15 { " (finding D15 predicts the error `Cannot create array of null type` here)".to_owned() } else if expected.d10 { format!(" (finding D10 predicts {:?})", expected.rows_d10) } else { String::new() };
+                    run.fail(desc.clone(), class, format!("implementation table {:?} but the rows of each group give {:?}{}", rows, expected.rows, note));
                 }
                 ("ok", rows.len())
             }
             RowsOutcome::Error(e) => {
-                let class = if expected.d15 { "D15:array_agg-first-value-null" } else { "aggregate-error-on-typed-statement" };
+                // known finding D15 only if the error is EXACTLY `ExecutionError::CannotCreateArrayOfNullType`
+                let class = if expected.d15 && e == D15_ERROR { "D15:array_agg-first-value-null" } else { "aggregate-error-on-typed-statement" };
                 run.fail(desc.clone(), class, format!("implementation reports `{}` but the rows of each group give {:?}", e, expected.rows));
                 ("err", 0)
             }
